@@ -120,7 +120,7 @@ def has_continuous_leaf(el):
 # ------------------------------------------------------------------------------------ the sweep
 
 TEMPLATES = ["comp", "comp-sq", "comp-times", "comp-dx", "grad-comp", "list", "cond", "variable", "free-index", "restricted", "fpow", "minmax-const"]
-QUICK_TEMPLATES_PLAIN = {"comp", "comp-times", "comp-dx", "restricted"}
+QUICK_TEMPLATES_PLAIN = {"comp", "comp-dx", "restricted"}
 
 
 def _build_sweep():
@@ -145,7 +145,7 @@ def _build_sweep():
 
 
 SWEEP = _build_sweep()
-NCASES = {"quick": (len(SWEEP["quick"]) * 4) // 3 + 200, "thorough": (len(SWEEP["thorough"]) * 4) // 3 + 30000}
+NCASES = {"quick": (len(SWEEP["quick"]) * 4) // 3 + 128, "thorough": (len(SWEEP["thorough"]) * 4) // 3 + 30000}
 FLOORS = {
     "quick": {"events_judged": 9000, "sweep_cases_judged": 3500, "random_cases_judged": 250, "tight_events": 2500,
               "hetero_component_events": 2500, "cfd_events_judged": 500, "attach_events_judged": 2500},
@@ -241,6 +241,8 @@ def elemsig(f):
 
 
 def mechanism(culprit):
+    while type(culprit).__name__ in ("PositiveRestricted", "NegativeRestricted"):
+        culprit = culprit.ufl_operands[0]  # an unrestricted operand has no single value on an interior facet
     name = type(culprit).__name__
     if name == "Power":
         return "Power/" + type(culprit.ufl_operands[1]).__name__ + "-exponent"
@@ -306,9 +308,12 @@ def judge_direct(ctx, event, expr, true, probes, info):
     return d
 
 
+EVENT_SHORT = {"raw": "raw", "preprocessed": "preprocessed", "attach_estimated_degrees": "attach", "compute_form_data": "cfd"}
+
+
 def record(ctx, event, expr, d, true, info):
     ctx.count("events_judged")
-    ctx.count(event.split("_")[0] + "_events_judged")
+    ctx.count(EVENT_SHORT[event] + "_events_judged")
     ctx.covered("events", event)
     ctx.covered("itypes_judged", info["itype"])
     for n in info["elements"]:
@@ -344,39 +349,48 @@ def judge_integrals(ctx, U, pieces, probes, info, opts):
         ctx.count("preprocess_refused")
         ctx.covered("preprocess_refused_with", type(ex).__name__ + ": " + str(ex)[:50])
         return
-    pints = pf.integrals()
+    def by_subdomain(integrals):
+        """Forms keep their integrals in canonical order: pair them with the pieces through the (unique) subdomain id."""
+        m = {}
+        for itg in integrals:
+            m.setdefault(itg.subdomain_id(), []).append(itg)
+        out = []
+        for sid, integrand, true in pieces:
+            got = m.get("everywhere" if sid is None else sid, [])
+            out.append(got[0] if len(got) == 1 else None)
+        return out
+
+    pints = by_subdomain(pf.integrals())
     direct = {}
-    if len(pints) == len(pieces):
-        for k, (itg, (sid, integrand, true)) in enumerate(zip(pints, pieces)):
-            d = judge_direct(ctx, "preprocessed", itg.integrand(), true, probes, info)
-            direct[k] = d
-        try:
-            af = attach_estimated_degrees(pf)
-            aints = af.integrals()
-        except Exception as ex:
-            ctx.count("attach_refused")
-            ctx.covered("attach_refused_with", type(ex).__name__ + ": " + str(ex)[:50])
-            aints = None
-        if aints is not None:
-            if len(aints) != len(pints):
-                ctx.violation("C18/attach_estimated_degrees/number-of-integrals-changed", f"{len(pints)} integrals in, {len(aints)} out")
-            else:
-                for k, (itg, (sid, integrand, true)) in enumerate(zip(aints, pieces)):
-                    d = itg.metadata().get("estimated_polynomial_degree")
-                    if not isinstance(d, int):
-                        ctx.violation("C18/attach_estimated_degrees/no-integer-degree-attached", f"metadata {itg.metadata()!r}")
-                        continue
-                    record(ctx, "attach_estimated_degrees", itg.integrand(), d, true, info)
-                    if d < true and direct.get(k) is not None and direct[k] >= true:
-                        ctx.violation(
-                            "C18/attach_estimated_degrees/below-true-degree-although-direct-estimate-is-not",
-                            f"attached degree {d} < true degree {true}; estimate_total_polynomial_degree of the same integrand gives {direct[k]}",
-                            dict(info, integrand=safe_str(itg.integrand(), 900), attached=d, true_degree=true, world=probes[0].describe()),
-                        )
-                    elif d < true:
-                        ctx.count("attach_underestimates_with_the_direct_estimate")
-    else:
-        ctx.count("preprocess_changed_number_of_integrals")
+    for k, (itg, (sid, integrand, true)) in enumerate(zip(pints, pieces)):
+        if itg is None:
+            ctx.count("preprocessed_integral_missing_or_split")
+            continue
+        direct[k] = judge_direct(ctx, "preprocessed", itg.integrand(), true, probes, info)
+    try:
+        aints = by_subdomain(attach_estimated_degrees(pf).integrals())
+    except Exception as ex:
+        ctx.count("attach_refused")
+        ctx.covered("attach_refused_with", type(ex).__name__ + ": " + str(ex)[:50])
+        aints = []
+    for k, (itg, (sid, integrand, true)) in enumerate(zip(aints, pieces)):
+        if itg is None:
+            if pints[k] is not None:
+                ctx.violation("C18/attach_estimated_degrees/integral-lost", f"the integral over subdomain {sid} has no counterpart after attach_estimated_degrees")
+            continue
+        d = itg.metadata().get("estimated_polynomial_degree")
+        if not isinstance(d, int) or isinstance(d, bool):
+            ctx.violation("C18/attach_estimated_degrees/no-integer-degree-attached", f"metadata {itg.metadata()!r}")
+            continue
+        record(ctx, "attach_estimated_degrees", itg.integrand(), d, true, info)
+        if d < true and direct.get(k) is not None and direct[k] >= true:
+            ctx.violation(
+                "C18/attach_estimated_degrees/below-true-degree-although-direct-estimate-is-not",
+                f"attached degree {d} < true degree {true}; estimate_total_polynomial_degree of the same integrand gives {direct[k]}",
+                dict(info, integrand=safe_str(itg.integrand(), 900), attached=d, true_degree=true, world=probes[0].describe()),
+            )
+        elif d < true:
+            ctx.count("attach_underestimates_with_the_direct_estimate")
     # --- compute_form_data
     if opts is None:
         return
@@ -570,7 +584,7 @@ def sweep_case(ctx, i, rng):
     ctx.covered("templates_judged", tname)
     judge_direct(ctx, "raw", e, true, probes, info)
     # compute_form_data checks arities: only integrands that are linear in the argument go there
-    opts = random_options(rng) if kind == "Coefficient" or tname in ("comp", "comp-times", "comp-dx", "split", "cond") else None
+    opts = random_options(rng) if kind == "Coefficient" or tname in ("comp", "comp-dx") else None
     judge_integrals(ctx, U, [(None if rng.random() < 0.6 else rng.choice([1, 2]), e, true)], probes, info, opts)
     if i % 997 == 5:
         ctx.sample({"sweep": [cell, gdim, name, kind, list(comp), tname, itype], "integrand": safe_str(e, 200), "true_degree": true})
@@ -656,10 +670,12 @@ def decorate(rng, U, G, e):
 
 
 def case(ctx, i, rng):
-    # three sweep entries, then one generated case, so that a time-truncated run has seen both kinds
+    # three sweep entries, then one generated case (in runs of 16 so that every worker of an 8- or 16-worker run sees
+    # both kinds and a time-truncated run has seen both kinds)
     n = len(SWEEP[ctx.tier])
-    blk, pos = divmod(i, 4)
-    k = blk * 3 + pos
+    q, r = divmod(i, 16)
+    blk, pos = divmod(q, 4)
+    k = (blk * 3 + pos) * 16 + r
     if pos < 3 and k < n:
         ctx.count("sweep_cases")
         sweep_case(ctx, k, rng)
